@@ -150,7 +150,18 @@ func GenC07(seed, index uint64) *Workload {
 		ntasks = 2 + r.Intn(3)
 		bigRun = true
 	}
-	deep := !bigRun && r.P(1, 60)
+	famRun := !bigRun && r.P(1, 12)
+	if famRun {
+		// several clients inside the same built-in function with different arguments
+		fam := pick(r, FuncFamilies)
+		w.Exprs = nil
+		nexpr = 2 + r.Intn(3)
+		for i := 0; i < nexpr; i++ {
+			w.Exprs = append(w.Exprs, specOf(GenFamilyExpr(r.Fork(400+uint64(i)), fam)))
+		}
+		ntasks = 3 + r.Intn(3)
+	}
+	deep := !bigRun && !famRun && r.P(1, 60)
 	if deep {
 		// several clients parse deeply nested texts at the same time
 		w.Exprs = nil
@@ -167,7 +178,7 @@ func GenC07(seed, index uint64) *Workload {
 		ntasks = 3 + r.Intn(3)
 	}
 	nexpr = addTextVariants(r, w, nexpr)
-	storm := r.P(1, 10) && !deep
+	storm := r.P(1, 10) && !deep && !famRun
 	if storm {
 		// compile storm: many clients compiling many different texts at once
 		ntasks = 4 + r.Intn(4)
@@ -197,6 +208,9 @@ func GenC07(seed, index uint64) *Workload {
 		}
 		if bigRun {
 			nops = 2 + r.Intn(3)
+		}
+		if famRun {
+			nops = 3 + r.Intn(3)
 		}
 		var ops []Op
 		for k := 0; k < nops; k++ {
@@ -250,6 +264,14 @@ func GenC06(seed, index uint64, maxOps int) *Workload {
 		fam := pick(r, BigFamilies)
 		for i := 0; i < nexpr; i++ {
 			w.Exprs = append(w.Exprs, specOf(GenBigExprFamily(r.Fork(300+uint64(i)), fam)))
+		}
+	}
+	if r.P(1, 15) {
+		fam := pick(r, FuncFamilies)
+		w.Exprs = nil
+		nexpr = 2 + r.Intn(3)
+		for i := 0; i < nexpr; i++ {
+			w.Exprs = append(w.Exprs, specOf(GenFamilyExpr(r.Fork(400+uint64(i)), fam)))
 		}
 	}
 	nexpr = addTextVariants(r, w, nexpr)
@@ -345,6 +367,12 @@ func GenC15(seed, index uint64) *Workload {
 	if r.P(1, 100) {
 		w.Docs = []string{GenBigDoc(r.Fork(3), "S")}
 		w.Exprs = []ExprSpec{specOf(GenBigExpr(r.Fork(4)))}
+	}
+	if r.P(1, 25) {
+		w.Docs = []string{GenMediumDoc(r.Fork(3), "S")}
+		w.Exprs = []ExprSpec{specOf(GenBigExpr(r.Fork(4)))}
+	} else if r.P(1, 20) {
+		w.Exprs = []ExprSpec{specOf(GenFamilyExpr(r.Fork(4), pick(r, FuncFamilies)))}
 	}
 	w.Policies = []simrt.Policy{
 		{Kind: simrt.PolSorted}, {Kind: simrt.PolReverse},
